@@ -87,10 +87,10 @@ PROPS["C15"] = {
         "the grammar is specified at token level (what delimits a token); equivalence with GNU make's full grammar is not claimed"],
 }
 PROPS["C10"] = {
-    "units": ["scan"],
-    "probes": {"scan": ["parse::Parser::read_build", "parse::Parser::read"]},
+    "units": ["scan", "load"],
+    "probes": {"scan": ["parse::Parser::read_build", "parse::Parser::read"], "load": ["load::Loader::add_build"]},
     "level": "proof",
-    "assumptions": SCAN_ASSUME + ["only the structural part is decided: the four input-section counts partition the input list and explicit_outs <= #outs (every subtraction in read_build is a discharged underflow obligation); which token lands in which section, escape rendering and load::Loader::add_build's field mapping are NOT yet under contract",
+    "assumptions": SCAN_ASSUME + ["only the structural part is decided: the four input-section counts partition the input list and explicit_outs <= #outs (every subtraction in read_build is a discharged underflow obligation); which token lands in which section and escape rendering are NOT under contract; unit load: add_build maps the parsed counts one-to-one onto BuildIns/BuildOuts, the k-th input/output id names canon(eval(k-th parsed path)) in order, and cmdline/desc/depfile/pool/hide_success are the attributes `command`/`description`/`depfile`/`pool`/`hide_success` (in-body assertions before Graph::add_build; rspfile, deps and hide_progress are not asserted)",
         "graph::Build's slice accessors (explicit/dirtying/ordering/validation) are proved in unit graph/sched (tagged C10)"],
 }
 DB_ASSUME = [
@@ -170,12 +170,13 @@ PROPS["C17"] = {
 }
 
 PROPS["C11"] = {
-    "units": ["eval"],
-    "probes": {"eval": ["eval::EvalString::evaluate_inner", "eval::EvalString::evaluate"]},
+    "units": ["eval", "load"],
+    "probes": {"eval": ["eval::EvalString::evaluate_inner", "eval::EvalString::evaluate"], "load": ["load::Loader::add_build"]},
     "level": "proof",
     "assumptions": [
         "DECIDED PART ONLY: the expansion function.  EvalString::evaluate(envs) == ev::eval(parts, envs), the spec function written from the statement (first env that binds the name wins -- even if the value is empty --, the value's own references continue in the FOLLOWING envs only, an unbound name expands to the empty string), for every part list and every env list (envs are arbitrary `dyn Env`s characterised by the uninterpreted `binds`); Vars::get_var is proved against its definition of binds",
-        "NOT decided here: which env lists the callers pass -- load::Loader::add_build's lookup closure (build block -> file scope for attributes bound on the build; rule binding -> [$in/$out, build block, file scope]), path evaluation with [build vars, file vars], the parser's eager top-level expansion (parse::Parser::read: evaluate(&[&self.vars]) then insert), include / subninja scope copying (load::parse_with_parser, Parser::inherit).  Seeded change C11-m2 (in add_build) is therefore NOT detected.  Defect D9 (an included file does not extend the including scope; reproduced by hand on the binary) lies in that undecided part and is reported in DESIGN.md, not by this check",
+        "unit load: Loader::add_build's `lookup` closure is proved (closure postcondition) to return livax::attr -- an attribute bound on the build block is expanded against [file scope] only, otherwise the rule's binding against [$in/$out..., build block, file scope] -- and the in/out path lists are evaluated against [build block, file scope]; BuildImplicitVars::get_var/file_list are proved against implicit_binds/join ($in, $out, $in_newline, $out_newline over the explicit ins/outs); the two SmallMap environments inherit the trait contract (first entry whose key equals the name, via the TRUSTED SmallMap::get / as_cow stubs and per-type `binds` definitions and dynamic-dispatch axioms)",
+        "NOT decided: the parser's eager top-level expansion (parse::Parser::read: evaluate(&[&self.vars]) then insert), include / subninja scope copying (load::parse_with_parser, Parser::inherit), `deps` attribute matching (string-literal patterns inside Some(..) have no Verus meaning).  Defect D9 (an included file does not extend the including scope; reproduced by hand on the binary) lies in that undecided part and is reported in DESIGN.md, not by this check",
         "R17: the external bound `T: AsRef<str>` is replaced by the local trait VxAsStr (as_ref -> vx_str) implemented for &str, String, Cow<str>; Cow's view is uninterpreted with one axiom for Cow::Borrowed; String::push_str / reserve carry trusted char-level specs; calc_evaluated_length (capacity hint) is a stub; the hash map behind Vars is a trusted stub",
         "the Env impls for SmallMap<K, EvalString<..>> and SmallMap<&str, String> and BuildImplicitVars ($in/$out) are not under contract",
     ],
